@@ -8,16 +8,34 @@ func buildPlan(id string, pinned map[string]string, tier string) *Plan {
 	case "C01":
 		p := &Plan{ID: id}
 		for _, pk := range fps {
-			p.Units = append(p.Units, Unit{Pkg: pk, Tags: "purego", Groups: []string{"field"}})
+			p.Units = append(p.Units, Unit{Pkg: pk, Tags: "purego", Groups: []string{"field", "conv"}})
 		}
 		for _, pk := range fps {
 			// default build configuration: the Go-bodied functions (assembly entry points are assumed contracts)
-			p.Units = append(p.Units, Unit{Pkg: pk, Tags: "", Groups: []string{"field"}})
+			p.Units = append(p.Units, Unit{Pkg: pk, Tags: "", Groups: []string{"field", "conv"}})
 		}
 		p.Trusted = []string{"pinned moduli in /verif/contracts/params.json (published curve parameters)",
 			"product abstraction: a product of two symbolic words is an opaque integer constrained only by its interval bound (sound: only weakens hypotheses)",
 			"lemma schema mulmono: a <= b && c >= 0 ==> a*c <= b*c (hypotheses discharged per instance)"}
 		p.Note = "Every arithmetic entry point under contract is verified against its integer-mod-q specification for all inputs and all alias partitions of its pointer operands."
+		return p
+	case "C08":
+		p := &Plan{ID: id}
+		for _, tags := range []string{"purego", ""} {
+			for _, pk := range fps {
+				p.Units = append(p.Units, Unit{Pkg: pk, Tags: tags, Groups: []string{"field", "conv"}, Verify: []string{"conv"}})
+			}
+		}
+		p.Trusted = []string{"pinned moduli in /verif/contracts/params.json", "axiomatic semantics of encoding/binary big/little-endian accessors"}
+		p.NotCovered = []string{"SetBytes / SetBigInt / BigInt / Text / SetString / JSON (math/big, strconv): not under contract", "Vector ReadFrom / AsyncReadFrom / WriteTo / MarshalBinary: not under contract"}
+		p.Note = "Canonical byte decoders accept exactly encodings below q; encoders and decoders are mutually inverse (lemma functions verified from the two contracts); integer setters produce the residue mod q; comparisons act on the regular value."
+		return p
+	case "C19":
+		p := &Plan{ID: id}
+		for _, pk := range fps {
+			p.Units = append(p.Units, Unit{Pkg: pk, Tags: "purego", Groups: []string{"field", "conv"}, MultiPartOnly: true})
+		}
+		p.Note = "Every function with two or more pointer operands of the same type is verified once per set partition of those operands (exact points-to per partition); postconditions are over old() values and the frame clause forbids writes to non-destination operands."
 		return p
 	}
 	return nil
